@@ -17,10 +17,10 @@ type Tape struct {
 	RecS     []int
 	state    uint64
 	inc      uint64
-	Strategy int // schedule strategy for ChooseSched in search mode
-	StickyP  int // percent chance to keep running the same task (strategy 1)
-	Overrun  int // draws past the end of a replayed tape
-	Marks    []int // positions in the generation stream where an operation starts
+	Strategy int            // schedule strategy for ChooseSched in search mode
+	StickyP  int            // percent chance to keep running the same task (strategy 1)
+	Overrun  int            // draws past the end of a replayed tape
+	Marks    []int          // positions in the generation stream where an operation starts
 	Named    map[string]int // positions of named draws (e.g. the crash step), for enumeration
 }
 
